@@ -77,6 +77,53 @@ CHECKS['C03'] = dict(
          'switch-exhaustiveness and grep counts), the hand-written pairing/sentinel/exemption tables in Spec/C03.lean; Python '
          'protocol enum = class X(IntEnum) in messages/*.py minus UpdateAction, SignalType; bitmask-derived classes not compared.')
 
+CHECKS['C10'] = dict(
+    text='Lean 4 theorem C10_read_eq_filterSpec: for every log and every combination of type, source, time-range and byte-limit '
+         'criteria the model of the reader (constructor index slicing + read loop with its two max_bytes cuts) returns exactly the '
+         'messages of the unfiltered read satisfying every criterion, in file order (refusing exactly when the spec refuses); '
+         'combined criteria = conjunction of the single ones; for logs with non-decreasing P1 times the positional time test on a timed '
+         'message is start <= t < end exactly for whole-second bounds, and within +-1 s otherwise; a range after the log selects '
+         'nothing. Model tied to mixed_log_reader.py/file_index.py by correspondence; spec run as oracle; all return_* combinations '
+         'checked for mutual consistency on the implementation.',
+    ref='4 C10', technique='Lean 4 refinement proof (index slicing + read loop -> List.filter spec) + correspondence',
+    note='Trusted: Lean kernel + 3 standard axioms; harness. Time arithmetic over integer nanoseconds (generated times are multiples of '
+         '0.25 s so the float arithmetic of the code is exact); relative ranges use the index\'s whole-second t0 as in the code; a time '
+         'range on a log without any P1 time raises IndexError in code, model and spec alike (treated as explicit refusal); '
+         'consistency of returned header/payload/bytes/offset/index is tested on the implementation, not modelled.')
+CHECKS['C15'] = dict(
+    text='Lean 4 theorems, for any number of message types and any time lists (unsorted, repeated, NaN) and any message_types, that '
+         'the literal model of DataLoader.time_align_data never raises and equals the specification: aligned types end with '
+         'equal-length, pairwise-equal, strictly ascending times = the sorted set of the intersection (DROP) / union (INSERT); every '
+         'result entry is the first input message with that time or (INSERT only) a fabricated default carrying the slot time; '
+         'unselected types are unchanged. Tied to data_loader.py on every run by bounded-exhaustive and random correspondence (object '
+         'identity via id(), content via a deep snapshot), including through read(time_align=...).',
+    ref='4 C15', technique='Lean 4 refinement proof (index-based numpy re-indexing -> set-algebra spec) + correspondence + direct oracle',
+    note='Trusted: Lean kernel; propext, Classical.choice, Quot.sound; the harness; np.unique / np.intersect1d modelled by documented '
+         'semantics and compared with numpy each run; times are exactly representable floats; unchanged content and '
+         'default-valuedness of inserted objects are tested, not proved.')
+CHECKS['C16'] = dict(
+    text='Lean 4: decided over the table extracted from every to_numpy classmethod on each run that every same-named key reads its '
+         'own field; universally quantified theorems (any number of messages) that each converted array has one entry per message '
+         'with entry i = field of message i (ints/enums/timestamps value-preserving, .T included), that time-independent outputs '
+         'hold the first message\'s value, and that NaN-time removal restricts every time-dependent array to one common kept-index '
+         'list; table and models tied to the Python code on every run by bit-exact evaluation on real objects with pairwise distinct '
+         'field values, plus the property statement run directly as oracle.',
+    ref='4 C16', technique='ast translator -> generated Lean table + decide; structural induction; correspondence + direct oracle',
+    note='Trusted: Lean kernel, 3 axioms, translator as reader of names/shapes (cross-checked), attribute encoder of the harness, NumPy. '
+         'Opaque entries (listed in evidence) decided by running only. Two documented deviations reported as open findings '
+         '(CalibrationStatus leading-UNKNOWN trimming; MeasurementDetails p1_time fill-in), both characterised by _partial theorems.')
+CHECKS['C02'] = dict(
+    text='A probe program compiled with the real headers yields sizeof/alignof/offsetof/kinds for all 68 structs '
+         '(Generated/C02CxxLayout.lean, regenerated each run); Lean 4 theorems: every struct is packed (members tile [0,sizeof), '
+         'sizeof % 4 = 0), the fixed-layout codec descriptor equals the compiler table, parsing reads member i from exactly '
+         '[offsetof, offsetof+sizeof), and field isolation / parse-build round trip hold generically by induction over the descriptor. '
+         'The Python classes are tied to the compiler-derived descriptor by exhaustive member probing (every leaf member, several '
+         'bit patterns, both directions, total size).',
+    ref='4 C02', technique='compiler-probe translator + Lean 4 decide over the layout table + generic codec proofs; exhaustive member probing',
+    note='That the Python classes implement the descriptor is established by exhaustive member probing, not by a theorem. Float-valued '
+         'codecs probed at exactly representable values only. Trusted: Lean kernel + 3 axioms; g++/clang++ on x86-64; header reader for '
+         'member names; the hand-written name map tools/c02_namemap.py (a wrong entry produces a violation, never a silent pass).')
+
 NOT_APPLICABLE = []
 
 
